@@ -139,7 +139,7 @@ func c11SingleWriter(c *core.Ctx) {
 		info := w.Info()
 		notDone := boolCallGuard(false, "types.(*HttpContext).IsDone")
 		n := 0
-		for _, cl := range w.Calls() {
+		for _, cl := range w.CallsX() { // including what a novel private helper called from Write does (judged at the helper call)
 			if cl.Recv == nil || fieldOf(info, recvBase(cl.Recv)) != "HttpContext.response" {
 				continue
 			}
@@ -192,7 +192,7 @@ func c11SingleWriter(c *core.Ctx) {
 				return false
 			}
 			if se, ok := nd.(*ast.SelectorExpr); ok && fieldOf(info, se) == "HttpContext.response" {
-				c.Check(R, keyf("%s/uses-response-field", u.Key), se.Pos(), allowedField[u.Key], "the response field is private to HttpContext")
+				c.Check(R, keyf("%s/uses-response-field", u.Key), se.Pos(), allowedField[u.Key] || novelCalledOnlyFrom(c, u, allowedField, 0), "the response field is private to HttpContext")
 			}
 			return true
 		})
